@@ -3,7 +3,7 @@ import ast
 
 import sympy as sp
 
-from ..astutil import dotted, func_params
+from ..astutil import dotted, func_params, norm
 from ..report import RuleDef
 from ..src import AnalysisError
 from ..vg import (App, BoolT, Cmp, Const, Evaluator, Frame, Ite, Obj, Tup,
@@ -28,6 +28,10 @@ EXPLANATION = (
     'broadcasting, the compiled kernel vs its .pyx source.')
 EXPLANATION_ADDED = (" (R9) integer positions: a may-be-integer dataflow over every contains() and its repository callees (coordinate components keep the caller's dtype; true division, trigonometry, hypot, float literals and float dtypes promote) finds no product or power of two possibly-integer coordinate arrays, which would wrap around silently.")
 EXPLANATION += EXPLANATION_ADDED
+EXPLANATION_ADDED2 = (' (R8) the geometry read by contains() is recomputed from the current parameters: no value computed in a constructor (or stored by an earlier call) and read later stands in for a parameter that can be reassigned (effect analysis on the constructors + evaluation clause: an attribute assigned after construction is the one read).')
+EXPLANATION += EXPLANATION_ADDED2
+EXPLANATION_ADDED3 = (" (R8, memo analysis shared with C02.R8, C03.R7, C04.R6, C08.R7) a getter that stores into the instance (self.K = v, self.__dict__[K] = v, setattr, @lazyproperty/@cached_property) is reported when no parameter writer drops the entry (compute-once memo), when some writers drop it and another does not (naming the one that does not), or when the entry is validated against a key that omits an instance attribute the remembered value reads; it is accepted when every writer (each parameter descriptor's __set__ through its super() chain and helpers, or the class's __setattr__) drops the entry on every path and the remembered value reads only by-value parameters (scalars, quantities: C17.R9); anything else (conditional drops, by-reference reads, complete keys) is not decided (exit 2).")
+EXPLANATION += EXPLANATION_ADDED3
 TRUSTED = ['np.cos/np.sin of an angle Quantity are cos/sin of the angle', 'np.hypot(a,b)=sqrt(a^2+b^2)',
            'np.abs, np.logical_not, &, ~ on boolean arrays are element-wise',
            'np.zeros(shape, dtype=bool) is all False', 'the .so kernels were built from the .pyx analysed']
@@ -475,10 +479,317 @@ GEOMETRY_METHODS = ('contains', 'bounding_box', 'to_mask', 'area', 'as_artist', 
 MEMOISERS = ('lazyproperty', 'cached_property', 'lru_cache', 'cache', 'classproperty_cached')
 
 
-def memoised_geometry(m, ci, names=None):
-    """[(method, why)]: geometry methods of class `ci` (and the properties/methods of `self` they read, transitively)
-    that remember a result across calls — a memoising decorator, or a store into `self.<attr>` inside the getter. A region's
-    parameters are assignable (and its operands mutable), so a remembered box / membership / mask goes stale."""
+def _self_store_key(n, selfname='self'):
+    """(key, how) when statement/expression `n` stores into the instance named `selfname` — `self.K = v`, `self.__dict__[K] = v`,
+    `vars(self)[K] = v`, `self.__dict__.setdefault(K, v)`, `setattr(self, K, v)`, `object.__setattr__(self, K, v)`; key None when
+    the name is computed."""
+    def is_self(e):
+        return isinstance(e, ast.Name) and e.id == selfname
+
+    def is_dict(e):
+        return (isinstance(e, ast.Attribute) and e.attr == '__dict__' and is_self(e.value)) or \
+               (isinstance(e, ast.Call) and isinstance(e.func, ast.Name) and e.func.id == 'vars' and len(e.args) == 1 and is_self(e.args[0]))
+
+    def const(e):
+        return e.value if isinstance(e, ast.Constant) and isinstance(e.value, str) else None
+    out = []
+    if isinstance(n, (ast.Assign, ast.AugAssign, ast.AnnAssign)):
+        todo = list(n.targets) if isinstance(n, ast.Assign) else [n.target]
+        while todo:
+            t = todo.pop()
+            if isinstance(t, (ast.Tuple, ast.List)):
+                todo.extend(t.elts)
+            elif isinstance(t, ast.Attribute) and is_self(t.value):
+                out.append((t.attr, f'self.{t.attr}'))
+            elif isinstance(t, ast.Subscript) and is_dict(t.value):
+                out.append((const(t.slice), f'{ast.unparse(t.value)}[{ast.unparse(t.slice)}]'))
+    elif isinstance(n, ast.NamedExpr):
+        pass
+    elif isinstance(n, ast.Call):
+        f = n.func
+        if isinstance(f, ast.Attribute) and f.attr in ('setdefault', '__setitem__') and is_dict(f.value) and n.args:
+            out.append((const(n.args[0]), f'{ast.unparse(f)}({ast.unparse(n.args[0])}, …)'))
+        elif isinstance(f, ast.Attribute) and f.attr == 'update' and is_dict(f.value):
+            for kw in n.keywords:
+                out.append((kw.arg, f'{ast.unparse(f)}({kw.arg}=…)'))
+            for a in n.args:
+                if isinstance(a, ast.Dict):
+                    for k in a.keys:
+                        out.append((const(k) if k is not None else None, f'{ast.unparse(f)}({{…}})'))
+                else:
+                    out.append((None, f'{ast.unparse(f)}(…)'))
+        elif isinstance(f, ast.Name) and f.id == 'setattr' and len(n.args) == 3 and is_self(n.args[0]):
+            out.append((const(n.args[1]), f'setattr(self, {ast.unparse(n.args[1])}, …)'))
+        elif isinstance(f, ast.Attribute) and f.attr == '__setattr__' and len(n.args) == 3 and is_self(n.args[0]):
+            out.append((const(n.args[1]), f'{ast.unparse(f)}(self, {ast.unparse(n.args[1])}, …)'))
+    return out
+
+
+def _kills(m, ci, owner, f, inst, key, depth=0):
+    """'yes' / 'no' / 'unknown': does function `f` (a descriptor's __set__, a class's __setattr__ or a helper they call),
+    on every normal path, remove or overwrite the remembered entry `key` of the instance bound to its parameter `inst`?
+    A removal nested under a condition is 'unknown'."""
+    if f is None or depth > 3:
+        return 'unknown'
+
+    def is_inst(e):
+        return isinstance(e, ast.Name) and e.id == inst
+
+    def is_dict(e):
+        return (isinstance(e, ast.Attribute) and e.attr == '__dict__' and is_inst(e.value)) or \
+               (isinstance(e, ast.Call) and isinstance(e.func, ast.Name) and e.func.id == 'vars' and len(e.args) == 1 and is_inst(e.args[0]))
+
+    def keymatch(e, loopvars):
+        if isinstance(e, ast.Constant):
+            return 'yes' if e.value == key else 'no'
+        if isinstance(e, ast.Name) and e.id in loopvars:
+            return loopvars[e.id]
+        return 'unknown'
+
+    def names_in(it):
+        # for K in instance.A / getattr(instance, 'A', ()) / ('a', 'b'): the tuple of names, or None
+        if isinstance(it, (ast.Tuple, ast.List)) and all(isinstance(e, ast.Constant) for e in it.elts):
+            return [e.value for e in it.elts]
+        attr = None
+        if isinstance(it, ast.Attribute) and (is_inst(it.value) or (isinstance(it.value, ast.Call) and ast.unparse(it.value.func) == 'type')):
+            attr = it.attr
+        if isinstance(it, ast.Call) and isinstance(it.func, ast.Name) and it.func.id == 'getattr' and len(it.args) >= 2 \
+                and is_inst(it.args[0]) and isinstance(it.args[1], ast.Constant):
+            attr = it.args[1].value
+        if attr is None:
+            return None
+        r = m.lookup(ci, attr)
+        if r is None:
+            return [] if isinstance(it, ast.Call) and len(it.args) == 3 else None
+        if r[1] == 'assign' and isinstance(r[2], (ast.Tuple, ast.List)) and all(isinstance(e, ast.Constant) for e in r[2].elts):
+            return [e.value for e in r[2].elts]
+        return None
+
+    def stmt(st, loopvars, cond):
+        """verdict of one statement: 'yes' when it certainly kills, 'unknown' when it may, else 'no'"""
+        res = 'no'
+
+        def up(v):
+            nonlocal res
+            if v == 'yes' and not cond:
+                res = 'yes'
+            elif v in ('yes', 'unknown') and res != 'yes':
+                res = 'unknown'
+        if isinstance(st, ast.For):
+            lv = dict(loopvars)
+            ns = names_in(st.iter)
+            if isinstance(st.target, ast.Name):
+                lv[st.target.id] = 'unknown' if ns is None else ('yes' if key in ns else 'no')
+            for b in st.body:
+                up(stmt(b, lv, cond))
+            return res
+        if isinstance(st, (ast.Try, ast.With)):
+            for b in st.body:
+                up(stmt(b, loopvars, cond))
+            for b in getattr(st, 'finalbody', []):
+                up(stmt(b, loopvars, cond))
+            return res
+        if isinstance(st, (ast.If, ast.While)):
+            for b in st.body + st.orelse:
+                up(stmt(b, loopvars, True))
+            return res
+        if isinstance(st, ast.Delete):
+            for t in st.targets:
+                if isinstance(t, ast.Subscript) and is_dict(t.value):
+                    up(keymatch(t.slice, loopvars))
+                elif isinstance(t, ast.Attribute) and is_inst(t.value):
+                    up('yes' if t.attr == key else 'no')
+            return res
+        for k_, how in ([] if not isinstance(st, (ast.Assign, ast.AugAssign, ast.AnnAssign)) else _self_store_key(st, inst)):
+            # overwriting the entry (e.g. with None) forgets the remembered value as well, unless this is the
+            # descriptor's own store of the assigned parameter (instance.__dict__[self.name] = value)
+            if k_ == key:
+                up('yes')
+        for n in ast.walk(st):
+            if not isinstance(n, ast.Call):
+                continue
+            fn = n.func
+            if isinstance(fn, ast.Attribute) and fn.attr == 'pop' and is_dict(fn.value) and n.args:
+                up(keymatch(n.args[0], loopvars))
+            elif isinstance(fn, ast.Attribute) and fn.attr == 'clear' and is_dict(fn.value):
+                up('yes')
+            elif isinstance(fn, ast.Name) and fn.id == 'delattr' and len(n.args) == 2 and is_inst(n.args[0]):
+                up(keymatch(n.args[1], loopvars))
+            elif isinstance(fn, ast.Attribute) and fn.attr in ('__set__', '__setattr__') and isinstance(fn.value, ast.Call) \
+                    and ast.unparse(fn.value.func) == 'super' and owner is not None and fn.attr == f.name:
+                # super().__set__(instance, value): the next definition in the owner's MRO
+                nxt = None
+                seen_self = False
+                for c in owner.mro:
+                    if seen_self and f.name in c.methods:
+                        nxt = (c, c.methods[f.name])
+                        break
+                    if c.name == f.cls:
+                        seen_self = True
+                if nxt is None:
+                    continue            # object.__setattr__: stores, kills nothing
+                params = [a.arg for a in nxt[1].node.args.args]
+                j = next((i for i, a in enumerate(n.args) if is_inst(a)), None)
+                if f.name == '__setattr__':
+                    up(_kills(m, ci, owner, nxt[1], params[0], key, depth + 1))
+                elif j is not None and j + 1 < len(params):
+                    up(_kills(m, ci, owner, nxt[1], params[j + 1], key, depth + 1))
+            elif isinstance(fn, ast.Attribute) and is_inst(fn.value):
+                g = m.method(ci, fn.attr)           # instance.helper()
+                if g is not None:
+                    up(_kills(m, ci, ci, g, g.node.args.args[0].arg, key, depth + 1))
+            elif isinstance(fn, ast.Attribute) and isinstance(fn.value, ast.Name) and fn.value.id == 'self' and owner is not None \
+                    and any(is_inst(a) for a in n.args):
+                g = m.method(owner, fn.attr)        # self.helper(instance)
+                if g is not None:
+                    j = next(i for i, a in enumerate(n.args) if is_inst(a))
+                    params = [a.arg for a in g.node.args.args]
+                    if j + 1 < len(params):
+                        up(_kills(m, ci, owner, g, params[j + 1], key, depth + 1))
+        return res
+
+    verdict = 'no'
+    for st in f.node.body:
+        v = stmt(st, {}, False)
+        if v == 'yes':
+            return 'yes'
+        if v == 'unknown':
+            verdict = 'unknown'
+    return verdict
+
+
+def memo_invalidation(m, ci, key):
+    """{writer: 'yes'|'no'|'unknown'} over everything that can assign a parameter (or meta/visual) of an instance of `ci`:
+    the `__set__` of each parameter's descriptor and, when the class defines one, its `__setattr__` (which sees every
+    assignment: when it kills the entry, every assignment does)."""
+    sa = m.lookup(ci, '__setattr__')
+    if sa is not None and sa[1] == 'method':
+        v = _kills(m, ci, ci, sa[2], sa[2].node.args.args[0].arg, key)
+        if v == 'yes':
+            return {f'{sa[0].name}.__setattr__': 'yes'}
+    out = {}
+    for p in tuple(m.params_of(ci)) + ("meta", "visual"):
+        r = m.lookup(ci, p)
+        if r is None or r[1] != 'assign' or not (isinstance(r[2], ast.Call) and isinstance(r[2].func, ast.Name)):
+            continue
+        rr = m.resolve_name(r[0].module, r[2].func.id)
+        if rr[0] != 'class':
+            continue
+        d = rr[1]
+        s_ = m.lookup(d, '__set__')
+        if s_ is None or s_[1] != 'method':
+            continue
+        f = s_[2]
+        params = [a.arg for a in f.node.args.args]
+        v = _kills(m, ci, d, f, params[1] if len(params) > 1 else 'instance', key)
+        out[f'{s_[0].name}.__set__ ({p})'] = v
+    if sa is not None and sa[1] == 'method' and v_unknown(_kills(m, ci, ci, sa[2], sa[2].node.args.args[0].arg, key)):
+        out[f'{sa[0].name}.__setattr__'] = 'unknown'
+    return out
+
+
+def v_unknown(v):
+    return v == 'unknown'
+
+
+def _key_checked(m, ci, f, key):
+    """None when the getter is a compute-once memo; otherwise the set of instance attributes that make up the key the getter
+    compares (==, !=) with what it read back from the remembered entry (`None` inside the set marks a part of the key that
+    is not a plain attribute read)."""
+    tainted = set()
+
+    def reads(e):
+        for n in ast.walk(e):
+            if isinstance(n, ast.Constant) and n.value == key:
+                return True
+            if isinstance(n, ast.Attribute) and n.attr == key:
+                return True
+            if isinstance(n, ast.Name) and n.id in tainted:
+                return True
+        return False
+    assigns = {}
+    for n in ast.walk(f.node):
+        if isinstance(n, ast.Assign) and len(n.targets) == 1 and isinstance(n.targets[0], ast.Name):
+            assigns.setdefault(n.targets[0].id, []).append(n.value)
+    for _ in range(3):
+        for n in ast.walk(f.node):
+            if isinstance(n, ast.Assign) and reads(n.value):
+                for t in n.targets:
+                    for x in ast.walk(t):
+                        if isinstance(x, ast.Name) and isinstance(x.ctx, ast.Store):
+                            tainted.add(x.id)
+
+    def attrs_of(e, depth=0):
+        out = set()
+        if isinstance(e, ast.Name) and e.id != 'self':
+            vs = assigns.get(e.id, [])
+            if len(vs) != 1 or depth > 3:
+                return {None}
+            return attrs_of(vs[0], depth + 1)
+        for n in ast.walk(e):
+            if isinstance(n, ast.Attribute) and isinstance(n.value, ast.Name) and n.value.id == 'self':
+                out.add(n.attr)
+            elif isinstance(n, ast.Call) and isinstance(n.func, ast.Name) and n.func.id == 'getattr' and n.args \
+                    and isinstance(n.args[0], ast.Name) and n.args[0].id == 'self':
+                if isinstance(n.args[1], ast.Constant):
+                    out.add(n.args[1].value)
+                else:
+                    out.add(('getattr', ast.unparse(n.args[1])))
+            elif isinstance(n, ast.Name) and n.id not in ('self', 'tuple', 'list', 'getattr') and isinstance(n.ctx, ast.Load) \
+                    and n.id in assigns:
+                out |= attrs_of(n, depth + 1)
+        # getattr(self, v) for v in self._params  ->  every parameter
+        if any(isinstance(a, tuple) for a in out):
+            out = {a for a in out if not isinstance(a, tuple)}
+            if '_params' in out:
+                out.discard('_params')
+                out |= set(m.params_of(ci))
+            else:
+                out.add(None)
+        return out
+    for n in ast.walk(f.node):
+        if isinstance(n, ast.Compare) and any(isinstance(o, (ast.Eq, ast.NotEq)) for o in n.ops) and reads(n):
+            sides = [n.left] + list(n.comparators)
+            keyattrs = set()
+            for sd in sides:
+                if not reads(sd):
+                    keyattrs |= attrs_of(sd)
+            return keyattrs
+    return None
+
+
+def _instance_reads(m, ci, f, skip=(), seen=None):
+    """instance attributes (descriptors, plain attributes) the function reads from `self`, through the properties and
+    methods of `self` it uses"""
+    seen = set() if seen is None else seen
+    out = set()
+    if f.qualname in seen:
+        return out
+    seen.add(f.qualname)
+    for n in ast.walk(f.node):
+        if isinstance(n, ast.Attribute) and isinstance(n.value, ast.Name) and n.value.id == 'self' and isinstance(n.ctx, ast.Load):
+            if n.attr in skip or n.attr.startswith('__'):
+                continue
+            r = m.lookup(ci, n.attr)
+            if r is not None and r[1] == 'method':
+                out |= _instance_reads(m, ci, r[2], skip, seen)
+            elif r is not None and r[1] == 'assign' and m.descriptor_kind(ci, n.attr) is None and n.attr not in ('meta', 'visual'):
+                continue            # class-level constant (_params, _mpl_artist, …)
+            else:
+                out.add(n.attr)
+    return out
+
+
+def memoised_geometry(m, ci, names=None, rule='memo'):
+    """[(method, why, func)]: geometry methods of class `ci` (and the properties/methods of `self` they read, transitively)
+    that remember a result across calls — a memoising decorator, or a store into the instance (`self.K = v`,
+    `self.__dict__[K] = v`, setattr, …) inside the getter — and whose remembered entry is NOT dropped by every writer of a
+    parameter.  A region's parameters are assignable (and its operands mutable), so a remembered box / membership / mask goes
+    stale.  Verdicts:
+      * no writer drops the entry, compute-once memo                    -> reported
+      * some writers drop it and another does not (inconsistent siblings) -> reported, naming the writer that does not
+      * every writer drops it, or the memo is validated against a key    -> AnalysisError (not decided: in-place changes of
+        by-reference parameters and the completeness of a key are outside this rule)"""
     out = []
     todo = [n for n in (names or GEOMETRY_METHODS)]
     seen = set()
@@ -490,22 +801,58 @@ def memoised_geometry(m, ci, names=None):
         f = m.method(ci, name)
         if f is None:
             continue
+        memos = []      # (key, description, per-instance invalidation possible)
         for d in f.node.decorator_list:
             dn = d.func if isinstance(d, ast.Call) else d
             short = ast.unparse(dn).split('.')[-1]
             if short in MEMOISERS:
-                out.append((name, f'is decorated with @{ast.unparse(dn)}: computed once per instance', f))
+                memos.append((name, f'is decorated with @{ast.unparse(dn)}: computed once per instance',
+                              short in ('lazyproperty', 'cached_property')))
+        if name not in ('rotate', 'to_sky', 'to_polygon'):
+            for n in ast.walk(f.node):
+                if isinstance(n, (ast.Assign, ast.AugAssign, ast.AnnAssign, ast.Call)):
+                    for k_, how in _self_store_key(n):
+                        memos.append((k_, f'stores its result in {how} (`{norm(n)[:60]}`)', True))
         for n in ast.walk(f.node):
-            if isinstance(n, (ast.Assign, ast.AugAssign, ast.AnnAssign)) and name not in ('rotate', 'to_sky', 'to_polygon'):
-                tgts = n.targets if isinstance(n, ast.Assign) else [n.target]
-                for t in tgts:
-                    if isinstance(t, ast.Attribute) and isinstance(t.value, ast.Name) and t.value.id == 'self':
-                        out.append((name, f'stores its result in self.{t.attr} (`{norm(n)[:60]}`)', f))
             if isinstance(n, ast.Attribute) and isinstance(n.value, ast.Name) and n.value.id == 'self' \
                     and isinstance(n.ctx, ast.Load):
                 r = m.lookup(ci, n.attr)
                 if r is not None and r[1] == 'method':
                     todo.append(n.attr)
+        for key, why, droppable in memos:
+            if key is None or not droppable:
+                out.append((name, why, f))
+                continue
+            inv = memo_invalidation(m, ci, key)
+            no = sorted(w for w, v in inv.items() if v == 'no')
+            yes = sorted(w for w, v in inv.items() if v == 'yes')
+            unk = sorted(w for w, v in inv.items() if v == 'unknown')
+            if no and yes:
+                out.append((name, f'{why}; the entry is dropped by {", ".join(yes)} but not by {", ".join(no)}', f))
+            elif unk:
+                raise AnalysisError(rule, f'{ci.name}.{name}', f'{why}; whether {", ".join(unk)} drops the remembered entry '
+                                    f'{key!r} on every path is not decided')
+            elif yes and not no:
+                # every assignment drops the entry; what is left is a change *in place* of something the remembered value was
+                # computed from.  Scalars and quantities are handed out by value (C17.R9), so a memo that reads only those
+                # cannot go stale; pixel coordinates, meta/visual and compound operands are objects the caller can change.
+                rd = _instance_reads(m, ci, f, skip=(key,))
+                byref = sorted(a for a in rd if m.descriptor_kind(ci, a) in (None, 'ScalarPixCoord', 'OneDPixCoord', 'RegionMetaDescr',
+                                                                             'RegionVisualDescr', 'RegionType'))
+                if byref:
+                    raise AnalysisError(rule, f'{ci.name}.{name}', f'{why}; every parameter writer drops the entry {key!r}, but the '
+                                        f'remembered value reads self.{", self.".join(byref)}, which can be changed in place — not decided')
+            elif (ka := _key_checked(m, ci, f, key)) is not None:
+                rd = _instance_reads(m, ci, f, skip=(key,))
+                missing = sorted(a for a in rd - ka if a is not None)
+                if missing and None not in ka:
+                    out.append((name, f'{why}; the entry is validated against a key of {sorted(ka)} but the remembered value also '
+                                f'depends on self.{", self.".join(missing)}, which can be re-assigned', f))
+                else:
+                    raise AnalysisError(rule, f'{ci.name}.{name}', f'{why}; the entry is validated against a key on each use — '
+                                        'whether the key captures every change (equality of the parts, in-place changes) is not decided')
+            else:
+                out.append((name, why, f))
     return out
 
 
@@ -595,7 +942,7 @@ def r8(ctx):
             if m.descriptor_kind(ci, a) is None:
                 continue              # class-level constant
             stale.append((a, sorted(where)))
-        memo = memoised_geometry(m, ci)
+        memo = memoised_geometry(m, ci, rule='C01.R8')
         if memo:
             name, why, f = memo[0]
             ctx.bad(ci.name, f'memoised:{name}',
